@@ -671,4 +671,28 @@ example :
      | none => false) = true := by
   decide
 
+/-! ### Open finding: the asynchronous expiry callback deletes a value set after the timer fired
+
+`NewCache` hands `cache.Del(key)` to the wheel as expiry callback, and the wheel runs the callbacks of a tick in a new
+goroutine.  If the user — a single goroutine suffices — calls `Set(k, v2)` after the tick has taken `k`'s timer out of
+the wheel and before that goroutine runs, the callback deletes `v2` and removes `v2`'s fresh timer: `Get k` misses
+although the latest value set was neither deleted by the user, nor expired, nor evicted.  Reproduced on the real code
+with the callback goroutine delayed (fixes/C16-cache-expiry-callback-race.demo_test.go.txt); proposed fix
+fixes/C16-cache-expiry-callback-race.patch (the timer carries the sequence number of its Set; a stale callback is
+ignored).  `CacheG.tick` — the schedule in which the callbacks run at once — is the one all other theorems cover. -/
+
+/-- witness (model of the code that exists, tick split into `fire` and the callbacks): set 1 ↦ 10 for one tick; the
+tick fires key 1; set 1 ↦ 11 for 50 ticks; the delayed callback runs; get 1 misses and the new timer is gone -/
+theorem pinned_expiry_callback_deletes_later_set :
+    let c1 := (CacheG.set C12.Spec.step (Spec.ACache.new 0) 1 10 1).1
+    let f := CacheG.fire C12.Spec.step c1
+    let c2 := (CacheG.set C12.Spec.step f.1 1 11 50).1
+    let c3 := CacheG.expire C12.Spec.step c2 f.2
+    f.2 = [(1, 10)] ∧ (CacheG.get C12.Spec.step c2 1).2.result = some 11
+    ∧ (CacheG.get C12.Spec.step c3 1).2.result = none ∧ c3.timers = [] := by decide
+
+/-- `tick` = `fire` followed at once by the callbacks -/
+theorem tick_is_fire_then_callbacks {T : Type} (ts : TStep T) (c : CacheG T) :
+    (CacheG.tick ts c).1 = CacheG.expire ts (CacheG.fire ts c).1 (CacheG.fire ts c).2 := rfl
+
 end GoZero.C16
